@@ -705,8 +705,71 @@ def judge_bad_setup(name, info):
 # ------------------------------------------------------------------------------------------------
 
 
+SWEEPABLE = ("Z1", "Z2", "Z3", "Z4", "Z6", "Z8", "Z9", "Z11", "Z12", "Z13", "Z15")
+
+
+def _gen_sweep(seed, tier, rng, nprng):
+    """A parameter study as users write them: one configuration evaluated for alternating settings of one option,
+    one Problem at a time, each dropped and collected before the next is built. Lifetimes never overlap, objects are
+    created and destroyed in the same order every time, so the objects of one Problem land at the addresses the previous
+    one's had: what state keyed by object identity, kept at module level or cached across Problems gets confused by -
+    deterministically, not by allocator luck."""
+    base = dict(rng.choice([v for v in TENANT_VARIANTS if v["zoo"] in SWEEPABLE]))
+    base["ny"] = rng.choice([5, 7])
+    base["nx"] = rng.choice([2, 2, 3])
+    kind = rng.choice(["mesh_opts", "mesh_opts", "surf_opts", "variant", "size"])
+    if kind == "mesh_opts" and base["zoo"] in ("Z13",):
+        kind = "surf_opts"
+    alts = [dict(base)]
+    for _ in range(rng.randint(1, 2)):
+        alt = dict(base)
+        if kind == "mesh_opts":
+            alt["mesh_opts"] = dict(rng.choice(zoo.MESH_OPT_CHOICES))
+        elif kind == "surf_opts":
+            alt["surf_opts"] = dict(rng.choice(zoo.SURF_OPT_CHOICES))
+        elif kind == "variant":
+            alt = dict(rng.choice([v for v in TENANT_VARIANTS if v["zoo"] == base["zoo"]]))
+            alt["ny"], alt["nx"] = base["ny"], base["nx"]
+        else:
+            alt["ny"] = 7 if base["ny"] == 5 else 5
+        alts.append(alt)
+    n = rng.randint(4, 6) if tier != "thorough" else rng.randint(4, 9)
+    tenants, script = [], []
+    probes = {}
+    for t in range(n):
+        spec = dict(alts[t % len(alts)])
+        spec["mode"] = "fwd"
+        key = core.digest(spec)
+        if key not in probes:
+            probes[key] = core.in_child(_probe_spec, spec)
+        model = probes[key]
+        pt = {}
+        for inp in model.inputs:
+            pt[inp.name] = inp.draw(nprng, rng) if (t >= len(alts) and rng.random() < 0.3) else inp.nom.copy()
+        if zoo.is_wind_off(pt):
+            pt["rho"] = model.inp("rho").nom.copy()
+        ops = [{"op": "build"}, {"op": "final_setup"}, {"op": "set", "k": 0}, {"op": "run"}]
+        if rng.random() < 0.4:
+            ops.append({"op": "totals"})
+        ops.append({"op": "drop"})
+        tenants.append({"id": t, "spec": spec, "points": [{k: np.asarray(v).tolist() for k, v in pt.items()}], "ops": ops,
+                        "twin_of": None, "late": False})
+        for i in range(len(ops)):
+            script.append(["t", t, i])
+    for name in ("unknown_surface_dict_key", "unknown_mesh_dict_key", "even_num_y", "unknown_wing_type"):
+        script.append(["bad", name])
+    return {
+        "property": PROP, "seed": seed, "tenants": tenants, "script": script, "share": None, "shape": "sweep:" + kind,
+        "env_rerun": bool(rng.random() < 0.15),
+        "env_variant": {"PYTHONHASHSEED": str(rng.choice([1, 7, 123, 99991])), "threads": str(rng.choice([1, 4, 16])),
+                        "cwd": rng.choice(["scratch", "scratch/sub dir"]), "optimize": rng.choice(["0", "0", "1"])},
+    }
+
+
 def _gen(seed, tier, opts):
     rng, nprng = core.rngs(seed)
+    if rng.random() < 0.2:
+        return _gen_sweep(seed, tier, rng, nprng)
     n_ten = rng.randint(2, 4) if tier != "thorough" else rng.randint(2, 6)
     share_level = rng.choice([None, None, "mesh", "surface"])
     tenants = []
@@ -739,7 +802,7 @@ def _gen(seed, tier, opts):
                 if k_ in base:
                     spec[k_] = base[k_]
             r_ = rng.random()
-            if rng.random() < 0.35 and base["zoo"] not in ("Z14", "Z5", "Z7", "Z10"):
+            if rng.random() < 0.3 and base["zoo"] not in ("Z14", "Z5", "Z7", "Z10"):
                 # ... or the same configuration on another mesh size (a coarse-then-refined study): the same surface
                 # names and classes with other array shapes - what state keyed by name alone gets confused by
                 spec = dict(base)
@@ -988,6 +1051,7 @@ class Tenant:
             finally:
                 simdisk.DISK.disarm(d)
         elif k == "drop":
+            zoo.note_dead(self.model)
             self.model = None
             self.dead = True
             gc.collect()
@@ -1216,6 +1280,11 @@ def execute(case, stop_at_first=True, collect=True, known=None):
     seq = [s[1] for s in case["script"]]
     res["interleave_hash"] = core.digest([seq, case.get("share"), [t["spec"]["zoo"] for t in case["tenants"]]])
     res["nontrivial"] = bool(stats.get("steps_with_two_live_tenants", 0) >= 1 and stats.get("context_switches", 0) >= 1)
+    if zoo.ADDRESS_REUSED[0]:
+        res["probes"]["surface_dict_born_at_a_dead_ones_address"] = zoo.ADDRESS_REUSED[0]
+    if str(case.get("shape", "")).startswith("sweep"):
+        res["probes"]["sweep_program_" + case["shape"].split(":")[1]] = 1
+        res["nontrivial"] = bool(stats.get("gc_drop", 0) >= 3)  # at least three Problems were born after another one died
     res["digest"] = log.hexdigest()
     res["log"] = log.lines if collect else []
     return res
@@ -1380,7 +1449,10 @@ def coverage(results, tier):
         "rule": "one case = one seeded program: 2-4 tenants (independent Problems from the zoo, optionally sharing mesh arrays / "
                 "surface dicts, optionally exact twins) with 4-12 ops each, 1-3 malformed set-ups, merged by a seeded scheduler; "
                 "distinct = distinct hash of (tenant-id interleaving sequence, sharing pattern, configurations); non-trivial = "
-                ">=2 live tenants overlapping in time and >=1 context switch",
+                ">=2 live tenants overlapping in time and >=1 context switch. One program in five is instead a parameter sweep: "
+                "4-6 Problems of one configuration with alternating settings of one option (mesh spacing, surface option, zoo "
+                "variant or mesh size), one alive at a time, each collected before the next is built; non-trivial = >=3 Problems "
+                "born after another one died",
         "samples": [r["sample"] for r in results[:2]] or [{}],
         "observations_compared": nobs,
         "observations_bit_identical": nbit,
